@@ -111,6 +111,9 @@ class Trace:
         # stores current time stamp
         self.index = 0
         self.max_index = len(self.timestamps.keys()) - 1
+        # cached virtual signal values belong to the old sampling
+        for signal in self.virtual_signals.values():
+            signal.cache = {}
 
     def add_virtual_signal(self, signal):
         '''Adds a virtual signal to this trace'''
